@@ -443,6 +443,42 @@ async fn later_frame_length_cases(addr: SocketAddr, conf: &Conf, out: &Mutex<Vec
     n
 }
 
+
+/// A crowd within one timeout window: 1 500 clients connect within a second or two and stay silent. Each of them is
+/// closed no later than the timeout (+ allowance) after it was accepted - the deadline is not a resource that runs out.
+async fn silent_crowd_case(addr: SocketAddr, conf: &Conf, out: &Mutex<Vec<Viol>>) -> u64 {
+    if !(2..=6).contains(&conf.timeout) || conf.big_status || !conf.files.is_empty() || conf.max_packet_length < 1000 {
+        return 0;
+    }
+    let n = 1_500usize;
+    let mut conns = vec![];
+    for _ in 0..n {
+        if let Ok(c) = connect(addr, conf).await {
+            conns.push((Instant::now(), c));
+        }
+    }
+    if conns.len() < n * 9 / 10 {
+        out.lock().unwrap().push(("connect-refused".into(), format!("only {} of {n} connections of the crowd could be opened", conns.len()), json!({"conf": conf, "case": "silent-crowd"})));
+        return conns.len() as u64;
+    }
+    let timeout = Duration::from_secs(conf.timeout);
+    let mut open = 0usize;
+    for (t0, mut c) in conns {
+        let left = (timeout + ALLOWANCE + Duration::from_millis(500)).saturating_sub(t0.elapsed());
+        if c.wait_closed(left.max(Duration::from_millis(1))).await.is_err() {
+            open += 1;
+        }
+    }
+    if open > 0 {
+        out.lock().unwrap().push((
+            "deadline-not-enforced:silent-crowd".into(),
+            format!("timeout = {} s: {open} of {n} silent connections that had arrived within one timeout window were still open {:?} after they were accepted", conf.timeout, timeout + ALLOWANCE),
+            json!({"conf": conf, "case": "silent-crowd"}),
+        ));
+    }
+    n as u64
+}
+
 /// A client that asks for the (huge) status and does not read: the server's write is blocked when the
 /// deadline passes. Once the client finally reads, it may only find what the kernel had buffered by then,
 /// followed by the end of the stream - not the complete answer, and not a connection that is still open.
@@ -645,6 +681,8 @@ fn run_conf(conf: &Conf, behaviours: &[&str], rep: &Report) -> u64 {
         let l = later_frame_length_cases(addr, conf, &out);
         let (x, y, _, z) = tokio::join!(a, b, ds, l);
         n = x + y + z + behaviours.len() as u64;
+        // (afterwards: its 1 500 sockets would get in the way of the timing of the cases above)
+        n += silent_crowd_case(addr, conf, &out).await;
     });
     // shutdown is requested while connections are in flight (one silent, one stalled after Login Start): they keep
     // their own deadline - closed no later than timeout (+ allowance) after they were accepted, not later because
